@@ -9,47 +9,33 @@ namespace VizierModel.Svc
   | nil => rfl
   | cons d ds ih => obtain ⟨i, b⟩ := d; simp [applyDecisions, ih]
 
+theorem esCompute_ok (cfg : Cfg) (st : Study) (id : Nat) (es : EsOutcome) {ts : List Trial} (hn : Nodup' ts)
+    (h1 : st.trials = ts) : TrialsOK ts (esCompute cfg st id es).2.trials := by
+  unfold esCompute
+  split
+  · split
+    · simpa [h1] using TrialsOK.refl hn
+    · simpa [h1] using TrialsOK.refl hn
+  · rename_i ds delta
+    have hu := updateMetadata_ok cfg st delta (h1 ▸ hn)
+    rw [h1] at hu
+    simp only
+    split
+    · exact hu
+    · split <;> simpa using hu
+
 theorem earlyStopBody_ok (cfg : Cfg) (st : Study) (id : Nat) (es : EsOutcome) (hn : Nodup' st.trials) :
     TrialsOK st.trials (earlyStopBody cfg st id es).2.trials := by
-  have key : ∀ st1 : Study, st1.trials = st.trials →
-      TrialsOK st.trials (match es with
-        | .raises =>
-          if cfg.esFailureFinishesOp then
-            ((.err .runtimeError .raw : Resp), st1.putEsOp { trialId := id, active := false, shouldStop := false })
-          else (.err .runtimeError .raw, st1)
-        | .decisions ds delta =>
-          let (ok, st2) := st1.updateMetadata cfg delta
-          if !ok then (.err .notFound .raw, st2)
-          else
-            let st3 := applyDecisions st2 ds
-            match esOpOf st3 id with
-            | some o => (.earlyStop o.shouldStop, st3)
-            | none => (.err .notFound .raw, st3)).2.trials := by
-    intro st1 h1
-    split
-    · split
-      · simpa [h1] using TrialsOK.refl hn
-      · simpa [h1] using TrialsOK.refl hn
-    · rename_i ds delta
-      have hu := updateMetadata_ok cfg st1 delta (h1 ▸ hn)
-      rw [h1] at hu
-      generalize st1.updateMetadata cfg delta = r at *
-      obtain ⟨ok, st2⟩ := r
-      simp only at hu ⊢
-      split
-      · exact hu
-      · split <;> simpa using hu
   unfold earlyStopBody
   split
   · exact TrialsOK.refl hn
   · split
     · exact TrialsOK.refl hn
-    · simp only
-      split
-      · exact key _ (by simp)
+    · split
+      · exact esCompute_ok cfg _ id es hn (by simp)
       · split
         · exact TrialsOK.refl hn
-        · exact key _ (by simp)
+        · exact esCompute_ok cfg _ id es hn (by simp)
 
 /-! ### lifting to the database -/
 
